@@ -179,6 +179,7 @@ PROPS["C20"] = {
               H("ZZ_C20_Waiters", params={"WAITERS": 1, "PRE": 1}, reach=["all-waiters-returned"], bounds="1 waiter, preemptions 1 (a wake-up delivered before the batch is applied is observable)"),
               H("ZZ_C20_Waiters", params={"WAITERS": 2, "PRE": 1}, reach=["all-waiters-returned"], bounds="2 waiters, preemptions 1"),
               H("ZZ_C20_WaitWithWriter", params={"PRE": 1}, reach=["all-returned"], bounds="1 writer x3 + 2 waiters, preemptions 1"),
+              H("ZZ_C20_TwoBarriers", params={"PRE": 2}, reach=["all-returned"], bounds="two goroutines each Set then Wait: each barrier covers the caller's own write; preemptions 2"),
               H("ZZ_C20_BarrierWithBusyQueue", params={"PRE": 2}, reach=["all-returned"], bounds="Set, Set, Delete, Wait on one goroutine while another keeps the queue busy (3 writes); preemptions 2")],
     "thorough": [H("ZZ_C20_Waiters", params={"WAITERS": 2}, reach=["all-waiters-returned"]),
                  H("ZZ_C20_Waiters", params={"WAITERS": 2, "WB": 2}, reach=["all-waiters-returned"]),
@@ -186,7 +187,8 @@ PROPS["C20"] = {
                  H("ZZ_C20_Waiters", params={"WAITERS": 2, "PRE": 2}, reach=["all-waiters-returned"], bounds="2 waiters, preemptions 2"),
                  H("ZZ_C20_Waiters", params={"WAITERS": 3, "WRITES": 2, "PRE": 1}, reach=["all-waiters-returned"], bounds="3 waiters, preemptions 1"),
                  H("ZZ_C20_WaitWithWriter", params={"PRE": 1}, reach=["all-returned"]),
-                 H("ZZ_C20_BarrierWithBusyQueue", params={"PRE": 2, "BUSY": 4, "WB": 2}, reach=["all-returned"], bounds="busy writer x4, batch size 2, preemptions 2")],
+                 H("ZZ_C20_BarrierWithBusyQueue", params={"PRE": 2, "BUSY": 4, "WB": 2}, reach=["all-returned"], bounds="busy writer x4, batch size 2, preemptions 2"),
+                 H("ZZ_C20_TwoBarriers", params={"PRE": 2, "ROUNDS": 2, "WB": 2}, reach=["all-returned"], bounds="two rounds each, batch size 2, preemptions 2")],
 }
 
 def _c10(pre):
